@@ -237,6 +237,15 @@ theorem popReady_count (e : Int) (p : Q → Bool) (l : List Q) :
 
 /-! ### components untouched by (re)arming -/
 
+/-- `_rearm_if_earlier` in closed form (the three tests are translated leaves) -/
+theorem rearmIfEarlier_eq (s : S) (w : Int) :
+    rearmIfEarlier s w =
+      if !s.started || decide (s.startupSent < Gen.startupQueries) then s
+      else if max w s.earliest < s.nextRunMs then armReady s (max w s.earliest) else s := by
+  unfold rearmIfEarlier
+  rw [rearm_guard_eq, rearm_when_eq, rearm_lt_eq]
+  simp only [decide_eq_true_eq]
+
 @[simp] theorem rearm_heap (s : S) (w : Int) : (rearmIfEarlier s w).heap = s.heap := by
   unfold rearmIfEarlier armReady; split <;> (try split) <;> rfl
 @[simp] theorem rearm_sent (s : S) (w : Int) : (rearmIfEarlier s w).startupSent = s.startupSent := by
@@ -244,7 +253,8 @@ theorem popReady_count (e : Int) (p : Q → Bool) (l : List Q) :
 @[simp] theorem rearm_earliest (s : S) (w : Int) : (rearmIfEarlier s w).earliest = s.earliest := by
   unfold rearmIfEarlier armReady; split <;> (try split) <;> rfl
 @[simp] theorem rearm_started (s : S) (w : Int) : (rearmIfEarlier s w).started = s.started := by
-  unfold rearmIfEarlier armReady
+  rw [rearmIfEarlier_eq]
+  unfold armReady
   split
   · rfl
   · rename_i h
@@ -318,7 +328,8 @@ structure Post (s : S) : Prop where
 
 theorem post_schedule {s : S} (h : Post s) (q : Q) : Post (schedule s q) := by
   have hs := sorted_insert (q := q) h.sorted
-  unfold schedule rearmIfEarlier
+  unfold schedule
+  rw [rearmIfEarlier_eq]
   have h1 : (!s.started || decide (s.startupSent < Gen.startupQueries)) = false := by
     have := h.sent
     rw [startupQueries_eq]; simp [h.started]; omega
@@ -714,7 +725,8 @@ structure Pre (t1 : Int) (s : S) : Prop where
   sorted : Sorted s.heap
 
 theorem schedule_pre {s : S} (h : s.startupSent < 4) (q : Q) : schedule s q = { s with heap := insert q s.heap } := by
-  unfold schedule rearmIfEarlier
+  unfold schedule
+  rw [rearmIfEarlier_eq]
   have : (!s.started || decide (s.startupSent < Gen.startupQueries)) = true := by
     rw [startupQueries_eq]; simp [h]
   simp [this]
@@ -1524,5 +1536,304 @@ theorem noentry_exec (c : Cfg) (a : String) : ∀ (evs : List (Int × Op)) (s : 
     obtain ⟨_, s1, o1, o2, hst, hex2, _⟩ := exec_cons hex
     have ⟨ha, hto⟩ := hact (t, op) (by simp)
     exact ih s1 t s' o2 (noentry_step c h0 ha hto hst) (fun e he => hact e (List.mem_cons_of_mem _ he)) hex2
+
+/-! ### before `start`: the real browser installs its listener first, so pointer updates reach an unstarted scheduler -/
+
+/-- the scheduler before `start` -/
+structure Idle (s : S) : Prop where
+  sent : s.startupSent = 0
+  started : s.started = false
+  armed : s.armed = none
+  sorted : Sorted s.heap
+
+/-- record updates: the only blocks that can reach a scheduler that has not been started -/
+def Op.idle : Op → Bool
+  | .ptr .. => true
+  | .cancel _ => true
+  | _ => false
+
+theorem Op.active_of_idle {op : Op} (h : op.idle = true) : op.active = true := by
+  cases op <;> simp_all [Op.idle, Op.active]
+
+theorem idle_init : Idle ({} : S) := ⟨rfl, rfl, rfl, by simp [Sorted]⟩
+
+theorem schedule_idle {s : S} (h : s.started = false) (q : Q) : schedule s q = { s with heap := insert q s.heap } := by
+  unfold schedule
+  rw [rearmIfEarlier_eq]
+  simp [h]
+
+theorem idle_step (c : Cfg) {s : S} (h : Idle s) {t : Int} {op : Op} {s1 : S} {o1 : List Send}
+    (hop : op.idle = true) (hst : step c s t op = some (s1, o1)) : Idle s1 ∧ o1 = [] := by
+  cases op with
+  | start d => simp [Op.idle] at hop
+  | stop => simp [Op.idle] at hop
+  | fire d => simp [Op.idle] at hop
+  | ptr a n ttl cr =>
+    simp only [step, Option.some.injEq, Prod.mk.injEq] at hst
+    refine ⟨?_, hst.2.symm⟩
+    rw [← hst.1]
+    unfold reschedule
+    split
+    · split
+      · exact ⟨h.sent, h.started, h.armed, sorted_relife _ _ _ h.sorted⟩
+      · rw [schedule_idle (by exact h.started)]
+        exact ⟨h.sent, h.started, h.armed, sorted_insert (sorted_cancelAlias _ h.sorted)⟩
+    · rw [schedule_idle h.started]
+      exact ⟨h.sent, h.started, h.armed, sorted_insert h.sorted⟩
+  | cancel a =>
+    simp only [step, Option.some.injEq, Prod.mk.injEq] at hst
+    refine ⟨?_, hst.2.symm⟩
+    rw [← hst.1]
+    exact ⟨h.sent, h.started, h.armed, sorted_cancelAlias _ h.sorted⟩
+
+/-- a history of record updates on an unstarted scheduler: still unstarted, nothing sent, an untouched entry stays -/
+theorem idle_exec (c : Cfg) : ∀ (evs : List (Int × Op)) (s : S) (clk : Int) (s' : S) (outs : List Send),
+    Idle s → (∀ e ∈ evs, e.2.idle = true) → exec c s clk evs = some (s', outs) →
+    Idle s' ∧ outs = [] ∧ ∀ q ∈ s.heap, (∀ e ∈ evs, e.2.touches q.alias = false) → q ∈ s'.heap := by
+  intro evs
+  induction evs with
+  | nil =>
+    intro s clk s' outs h _ hex
+    simp only [exec, Option.some.injEq, Prod.mk.injEq] at hex
+    rw [← hex.1, ← hex.2]; exact ⟨h, rfl, fun q hq _ => hq⟩
+  | cons e es ih =>
+    intro s clk s' outs h hop hex
+    obtain ⟨t, op⟩ := e
+    obtain ⟨_, s1, o1, o2, hst, hex2, rfl⟩ := exec_cons hex
+    have hi := hop (t, op) (by simp)
+    have ⟨h1, ho1⟩ := idle_step c h hi hst
+    have ⟨h2, ho2, hk⟩ := ih s1 t s' o2 h1 (fun e he => hop e (List.mem_cons_of_mem _ he)) hex2
+    refine ⟨h2, by rw [ho1, ho2]; rfl, ?_⟩
+    intro q hq hun
+    refine hk q ?_ (fun e he => hun e (List.mem_cons_of_mem _ he))
+    have hto := hun (t, op) (by simp)
+    cases op with
+    | start d => simp [Op.idle] at hi
+    | stop => simp [Op.idle] at hi
+    | fire d => simp [Op.idle] at hi
+    | ptr a n ttl cr =>
+      simp only [step, Option.some.injEq, Prod.mk.injEq] at hst
+      rw [← hst.1]
+      exact mem_reschedule_other c hq (beq_comm_false (by simpa [Op.touches] using hto))
+    | cancel a =>
+      simp only [step, Option.some.injEq, Prod.mk.injEq] at hst
+      rw [← hst.1]
+      exact mem_cancelAlias_other hq (beq_comm_false (by simpa [Op.touches] using hto))
+
+/-- `start` on an unstarted scheduler: the draw is in the interval, the start-up phase begins, the heap is kept -/
+theorem start_from_idle (c : Cfg) {s : S} (h : Idle s) {t : Int} {d : Nat} {s1 : S} {o1 : List Send}
+    (hst : step c s t (.start d) = some (s1, o1)) :
+    (c.lo ≤ d ∧ d ≤ c.hi) ∧ Pre (t + d) s1 ∧ s1.startupSent = 0 ∧ s1.heap = s.heap ∧ o1 = [] := by
+  simp only [step] at hst
+  split at hst
+  · rename_i hd
+    simp only [Option.some.injEq, Prod.mk.injEq] at hst
+    refine ⟨hd, ?_, ?_, ?_, hst.2.symm⟩
+    · rw [← hst.1]
+      exact ⟨by simp [h.sent], rfl, by simp [h.sent, startupOffset], h.sorted⟩
+    · rw [← hst.1]; exact h.sent
+    · rw [← hst.1]
+  · simp at hst
+
+/-! ### records learned before or during the start-up phase -/
+
+theorem startupOffset_le14 (k : Nat) : startupOffset k ≤ 14000 := by
+  have : k = 0 ∨ k = 1 ∨ k = 2 ∨ 3 ≤ k := by omega
+  rcases this with rfl | rfl | rfl | h3
+  · simp [startupOffset]
+  · simp [startupOffset]
+  · simp [startupOffset]
+  · rw [startupOffset_ge3 h3]; omega
+
+
+theorem pre_step_keeps (c : Cfg) {t1 : Int} {s : S} (h : Pre t1 s) {t : Int} {op : Op} {s1 : S} {o1 : List Send} {q : Q}
+    (ha : op.active = true) (hto : op.touches q.alias = false) (hst : step c s t op = some (s1, o1)) (hq : q ∈ s.heap) :
+    q ∈ s1.heap := by
+  cases op with
+  | start d => simp [Op.active] at ha
+  | stop => simp [Op.active] at ha
+  | ptr a n ttl cr =>
+    simp only [step, Option.some.injEq, Prod.mk.injEq] at hst
+    rw [← hst.1]
+    exact mem_reschedule_other c hq (beq_comm_false (by simpa [Op.touches] using hto))
+  | cancel a =>
+    simp only [step, Option.some.injEq, Prod.mk.injEq] at hst
+    rw [← hst.1]
+    exact mem_cancelAlias_other hq (beq_comm_false (by simpa [Op.touches] using hto))
+  | fire d =>
+    simp only [step, h.armed] at hst
+    split at hst
+    · simp only [Option.some.injEq] at hst
+      have := fireStartup_heap c s t d
+      rw [hst] at this
+      have e : s1.heap = s.heap := this
+      rw [e]; exact hq
+    · simp at hst
+
+/-- the refresh chain of an entry that was scheduled before the running phase began: the start-up passes leave it alone, the
+first running-phase wake-up is armed one delay after the fourth start-up query, and from there `chain_core` applies —
+provided the entry's time is not before the end of the start-up phase (`t1 + 14000 ≤ q.when`) -/
+theorem chain_pre (c : Cfg) (name : String) (ttl : Nat) (expire : Int) (t1 : Int) :
+    ∀ (evs : List (Int × Op)) (n : Nat) (s : S) (clk : Int) (s' : S) (outs : List Send) (q : Q),
+    Pre t1 s → q ∈ s.heap → q.cancelled = false → q.name = name → q.ttl = ttl → q.expire = expire →
+    t1 + 14000 ≤ q.when → clk ≤ q.when + c.minDelay →
+    (∀ e ∈ evs, e.2.active = true ∧ e.2.touches q.alias = false) →
+    exec c s clk evs = some (s', outs) →
+    Chain c name ttl expire (lastTime clk evs) outs n q.when := by
+  intro evs
+  induction evs with
+  | nil =>
+    intro n s clk s' outs q _ _ _ _ _ _ _ hclk _ _
+    cases n with
+    | zero => trivial
+    | succ n => exact Or.inl hclk
+  | cons e es ih =>
+    intro n s clk s' outs q h hq hl hname httl hexp hlate hclk hact hex
+    obtain ⟨t, op⟩ := e
+    obtain ⟨hen, s1, o1, o2, hst, hex2, rfl⟩ := exec_cons hex
+    have ⟨ha, hto⟩ := hact (t, op) (by simp)
+    have hrest : ∀ e ∈ es, e.2.active = true ∧ e.2.touches q.alias = false := fun e he => hact e (List.mem_cons_of_mem _ he)
+    have htd : t ≤ t1 + startupOffset s.startupSent := by
+      have := hen; simp [enabledAt, h.armed] at this; exact this.2
+    have hoff := startupOffset_le14 s.startupSent
+    have htw : t ≤ q.when := by omega
+    have hq1 : q ∈ s1.heap := pre_step_keeps c h ha hto hst hq
+    show Chain c name ttl expire (lastTime t es) (o1 ++ o2) n q.when
+    rcases pre_step c t1 h ha hst with hp1 | ⟨hp1, he1⟩
+    · exact chain_mono_outs (ih n s1 t s' o2 q hp1 hq1 hl hname httl hexp hlate (by omega) hrest hex2)
+    · exact chain_mono_outs (chain_core c name ttl expire es n s1 t s' o2 q hp1 hq1 hl hname httl hexp (by omega) (by omega) hrest hex2)
+
+/-! ### a wake-up is never armed in the past (when no record is scheduled for a time already gone) -/
+
+/-- the pointer update is not for a refresh time already in the past (`created + 75 % TTL ≥ now`; always true for a record
+just received, `created = now`) -/
+def Op.fresh (t : Int) : Op → Bool
+  | .ptr _ _ ttl cr => decide (t ≤ cr + 750 * ttl)
+  | _ => true
+
+theorem rearm_armed_cases (s : S) (w : Int) :
+    (rearmIfEarlier s w).armed = s.armed ∨ (rearmIfEarlier s w).armed = some (.ready, max w s.earliest) := by
+  rw [rearmIfEarlier_eq]
+  split
+  · exact Or.inl rfl
+  · split
+    · exact Or.inr rfl
+    · exact Or.inl rfl
+
+/-- one block keeps "the armed wake-up is not before the clock" -/
+theorem ahead_step (c : Cfg) {s : S} {clk t : Int} {op : Op} {s1 : S} {o1 : List Send}
+    (hen : enabledAt s clk t = true) (hlive : op.active = true ∨ ∃ d, op = .start d) (hf : op.fresh t = true)
+    (hst : step c s t op = some (s1, o1)) : ∀ k due, s1.armed = some (k, due) → t ≤ due := by
+  have hold : ∀ k due, s.armed = some (k, due) → t ≤ due := by
+    intro k due ha
+    have := hen; simp [enabledAt, ha] at this; exact this.2
+  cases op with
+  | stop => rcases hlive with h | ⟨d, h⟩ <;> simp [Op.active] at h
+  | start d =>
+    simp only [step] at hst
+    split at hst
+    · simp only [Option.some.injEq, Prod.mk.injEq] at hst
+      intro k due ha
+      rw [← hst.1] at ha
+      simp only [Option.some.injEq, Prod.mk.injEq] at ha
+      omega
+    · simp at hst
+  | cancel a =>
+    simp only [step, Option.some.injEq, Prod.mk.injEq] at hst
+    intro k due ha; rw [← hst.1] at ha; exact hold k due ha
+  | ptr a n ttl cr =>
+    simp only [step, Option.some.injEq, Prod.mk.injEq] at hst
+    have hfw : t ≤ (firstQuery a n ttl cr).when := by
+      rw [firstQuery_when]; simpa [Op.fresh] using hf
+    intro k due ha
+    rw [← hst.1] at ha
+    unfold reschedule at ha
+    split at ha
+    · split at ha
+      · exact hold k due ha
+      · unfold schedule at ha
+        rcases rearm_armed_cases { s with heap := insert (firstQuery a n ttl cr) (cancelAlias a s.heap) } (firstQuery a n ttl cr).when with h1 | h1
+        · rw [h1] at ha; exact hold k due ha
+        · rw [h1] at ha
+          simp only [Option.some.injEq, Prod.mk.injEq] at ha
+          omega
+    · unfold schedule at ha
+      rcases rearm_armed_cases { s with heap := insert (firstQuery a n ttl cr) s.heap } (firstQuery a n ttl cr).when with h1 | h1
+      · rw [h1] at ha; exact hold k due ha
+      · rw [h1] at ha
+        simp only [Option.some.injEq, Prod.mk.injEq] at ha
+        omega
+  | fire d =>
+    have hd : d = false := by
+      rcases hlive with h | ⟨d', h⟩
+      · simpa [Op.active] using h
+      · cases h
+    subst hd
+    simp only [step] at hst
+    split at hst
+    · split at hst
+      · simp only [Option.some.injEq] at hst
+        rw [fireStartup_false] at hst
+        intro k due ha
+        split at hst
+        · simp only [Prod.mk.injEq] at hst
+          rw [← hst.1] at ha
+          simp only [armReady, Option.some.injEq, Prod.mk.injEq] at ha
+          omega
+        · simp only [Prod.mk.injEq] at hst
+          rw [← hst.1] at ha
+          simp only [Option.some.injEq, Prod.mk.injEq] at ha
+          have : (0 : Int) ≤ ((s.startupSent : Int) + 1) * ((s.startupSent : Int) + 1) * 1000 := by
+            have h0 : (0 : Int) ≤ (s.startupSent : Int) + 1 := by omega
+            exact Int.mul_nonneg (Int.mul_nonneg h0 h0) (by omega)
+          omega
+      · simp at hst
+    · split at hst
+      · simp only [Option.some.injEq] at hst
+        rw [fireReady_false] at hst
+        simp only [Prod.mk.injEq] at hst
+        intro k due ha
+        rw [← hst.1] at ha
+        simp only [armReady, Option.some.injEq, Prod.mk.injEq] at ha
+        have hnw : t + (c.minDelay : Int) ≤ due := by
+          rw [← ha.2, nextWhen_eq]
+          split
+          · split <;> omega
+          · omega
+        omega
+      · simp at hst
+    · simp at hst
+
+/-- after every history of live blocks with fresh pointer updates, the armed wake-up (if any) is not before the last block -/
+theorem ahead_exec (c : Cfg) : ∀ (evs : List (Int × Op)) (s : S) (clk : Int) (s' : S) (outs : List Send),
+    (∀ k due, s.armed = some (k, due) → clk ≤ due) →
+    (∀ e ∈ evs, (e.2.active = true ∨ ∃ d, e.2 = .start d) ∧ e.2.fresh e.1 = true) →
+    exec c s clk evs = some (s', outs) →
+    ∀ k due, s'.armed = some (k, due) → lastTime clk evs ≤ due := by
+  intro evs
+  induction evs with
+  | nil =>
+    intro s clk s' outs h _ hex
+    simp only [exec, Option.some.injEq, Prod.mk.injEq] at hex
+    rw [← hex.1]; exact h
+  | cons e es ih =>
+    intro s clk s' outs _ hev hex
+    obtain ⟨t, op⟩ := e
+    obtain ⟨hen, s1, o1, o2, hst, hex2, _⟩ := exec_cons hex
+    have ⟨h1, h2⟩ := hev (t, op) (by simp)
+    exact ih s1 t s' o2 (ahead_step c hen h1 h2 hst) (fun e he => hev e (List.mem_cons_of_mem _ he)) hex2
+
+/-- during a pass the follow-ups pushed never re-arm: their time is after now, the armed time of the pass is not -/
+theorem rescue_no_rearm {s : S} {q : Q} {now : Int} (hn : s.nextRunMs ≤ now) (hq : now < q.when) :
+    (schedule s q).armed = s.armed := by
+  unfold schedule
+  rw [rearmIfEarlier_eq]
+  split
+  · rfl
+  · split
+    · rename_i hlt
+      have : max q.when s.earliest < s.nextRunMs := hlt
+      omega
+    · rfl
 
 end Zc.Sched
